@@ -238,6 +238,9 @@ def gen_version(rng):
 def gen(rng, n, tier):
     for i in range(n):
         r = rng.random()
+        if rng.random() < 0.01:
+            yield [["bucket", "late_class"], ["kind", "late_class"], ["n", rng.randint(0, 10 ** 6)]]
+            continue
         if rng.random() < 0.04:
             # legal content dtypes outside the modelled enumeration: int8 and the unsigned integers (errors2 = contents)
             dt = rng.choice(["int8", "uint8", "uint16", "uint32", "uint64"])
@@ -453,6 +456,18 @@ def impl(case):
             finally:
                 os.unlink(path)
             return out
+        if d["kind"] == "late_class":
+            from physt.histogram1d import Histogram1D
+            from physt.binnings import StaticBinning
+            parse_json(Histogram1D([0, 1, 2], [1, 2]).to_json())      # the reader has been used before the classes below exist
+            Late = type("LateHistogram%d" % d["n"], (Histogram1D,), {})
+            LateB = type("LateBinning%d" % d["n"], (StaticBinning,), {})
+            h = Late(LateB(np.array([[0.0, 1.0], [1.0, 2.5]])), [d["n"] % 7, 3])
+            try:
+                g = parse_json(h.to_json())
+                return [["same_class", "T" if type(g) is Late else "F"], ["eq", "T" if g == h else "F"], ["binning_class", "T" if type(g.binning) is LateB else "F"]]
+            except Exception as e:
+                return [["error", type(e).__name__]]
         if d["kind"] == "narrow":
             from physt.histogram1d import Histogram1D
             from physt.histogram_nd import Histogram2D
@@ -519,7 +534,7 @@ def corr_view(case, obs):
         if "after" not in o: return "?"
         a = o["after"]
         return [[sx.rec(m)["m"] for m in a[0]], a[1], a[2], a[3]]
-    if d["kind"] == "narrow": return "narrow"      # no model run for dtypes outside the enumeration: the judge decides alone
+    if d["kind"] in ("narrow", "late_class"): return d["kind"]      # no model run for dtypes outside the enumeration: the judge decides alone
     return obs
 
 def classify(case, obs, model, verdict, corr, detail=""):
